@@ -20,8 +20,8 @@ import (
 var c18Cache = map[string]*decl.Decl{}
 
 // layout of add's positionals: 0 none, 1 [Words], 2 [Words,int], 3 [int,Words], 4 [Words, ...Words2]
-func c18Decl(layout int, subOpt bool, defaultOpts bool, pano bool) *decl.Decl {
-	key := fmt.Sprint(layout, subOpt, defaultOpts, pano)
+func c18Decl(layout int, subOpt bool, defaultOpts bool, pano bool, ignoreUnknown bool) *decl.Decl {
+	key := fmt.Sprint(layout, subOpt, defaultOpts, pano, ignoreUnknown)
 	if d := c18Cache[key]; d != nil {
 		return d
 	}
@@ -38,6 +38,7 @@ func c18Decl(layout int, subOpt bool, defaultOpts bool, pano bool) *decl.Decl {
 		{Field: "Color", Short: "c", Long: "color", Type: decl.TOnOff},
 		{Field: "PW", Long: "pw", Type: decl.TPWords},
 		{Field: "UpperShort", Short: "Z", Type: decl.TBool}, // sorts before every lower-case short name, after every long name
+		{Field: "VeeMore", Long: "vee-more", Type: decl.TBool}, // --vee, typed completely, is still a prefix of this one
 	}}
 	deep := &decl.Cmd{Field: "Deep", Name: "deep", Opts: []*decl.Opt{{Field: "Depth", Long: "depth", Type: decl.TInt}}}
 	add := &decl.Cmd{Field: "Add", Name: "add", Aliases: []string{"a2"}, SubOptional: true, Cmds: []*decl.Cmd{deep}, Opts: []*decl.Opt{
@@ -70,6 +71,9 @@ func c18Decl(layout int, subOpt bool, defaultOpts bool, pano bool) *decl.Decl {
 	if pano {
 		d.Options |= flags.PassAfterNonOption
 	}
+	if ignoreUnknown {
+		d.Options |= flags.IgnoreUnknown
+	}
 	d.Finish()
 	c18Cache[key] = d
 	return d
@@ -80,7 +84,7 @@ var c18Units = [][]string{
 	{"add"}, {"a2"}, {"rm"}, {"deep"}, {"adx"}, {"zz"}, {"alpha"}, {"7"}, {"--"}, {"--force"}, {"--from", "gamma"}, {"-x"}, {"-ü", "gamma"}, {"-ü"}, {"-vü"}, {"--color", "on"}, {"-c"}, {"--pw"},
 }
 
-var c18Last = []string{"", "-", "--", "--v", "--ve", "--f", "--x", "--s", "-v", "-f", "-fal", "-f=al", "--file=al", "--file=", "--from=", "--from=a", "--num=", "al", "a", "ad", "r", "zz", "g", "d", "h", "--de", "-o", "--opt=", "be", "-ü", "-üal", "-ü=g", "--u", "--pw=al", "--c"}
+var c18Last = []string{"", "-", "--", "--v", "--ve", "--vee", "--f", "--x", "--s", "-v", "-f", "-fal", "-f=al", "--file=al", "--file=", "--from=", "--from=a", "--num=", "al", "a", "ad", "r", "zz", "g", "d", "h", "--de", "-o", "--opt=", "be", "-ü", "-üal", "-ü=g", "--u", "--pw=al", "--c"}
 
 func wordsMatching(list []string, prefix string) []string {
 	var out []string
@@ -120,8 +124,9 @@ func init() {
 		lateAPI := c.Deviate(2) == 1 // built through the API; the parser's group is added after the commands and after a first completion and parse
 		// PassAfterNonOption set as well (two positional layouts whose fields complete differently): asserted before the first plain
 		// word as always, after it only where a positional value is being completed
-		pano := c.Bool()
-		if pano && !((layout == 2 || layout == 4) && !subOpt && !defOpts && !lateAPI) {
+		optVariant := c.Choose(3) // 1: PassAfterNonOption; 2: IgnoreUnknown (typed words with a passed-through unknown option are skipped: nothing may change)
+		pano, ignoreUnknown := optVariant == 1, optVariant == 2
+		if optVariant != 0 && !((layout == 2 || layout == 4) && !subOpt && !defOpts && !lateAPI) {
 			c.Skip()
 		}
 		maxDepth := 3
@@ -134,7 +139,7 @@ func init() {
 		if lateAPI && !c.Thorough && maxDepth > 2 {
 			maxDepth = 2
 		}
-		if pano && !c.Thorough && maxDepth > 2 {
+		if optVariant != 0 && !c.Thorough && maxDepth > 2 {
 			maxDepth = 2
 		}
 		n := c.Choose(maxDepth + 1)
@@ -143,9 +148,9 @@ func init() {
 			prefix = append(prefix, c18Units[c.Choose(len(c18Units))]...)
 		}
 		last := c18Last[c.Choose(len(c18Last))]
-		d := c18Decl(layout, subOpt, defOpts, pano)
+		d := c18Decl(layout, subOpt, defOpts, pano, ignoreUnknown)
 		c.Describe(func() interface{} {
-			return map[string]interface{}{"add_positionals": layout, "subcommands_optional": subOpt, "help_flag": defOpts, "api_build_with_group_added_after_use": lateAPI, "pass_after_non_option": pano, "typed_words": prefix, "partial_last_word": last}
+			return map[string]interface{}{"add_positionals": layout, "subcommands_optional": subOpt, "help_flag": defOpts, "api_build_with_group_added_after_use": lateAPI, "pass_after_non_option": pano, "ignore_unknown": ignoreUnknown, "typed_words": prefix, "partial_last_word": last}
 		})
 		cfg := &ref.Config{D: d, Prefix: true}
 		res := ref.Run(cfg, prefix)
@@ -169,7 +174,20 @@ func init() {
 			}
 			c.Hit("pass-after-non-option")
 		}
-		key := fmt.Sprint(layout, subOpt, defOpts, pano)
+		if ignoreUnknown {
+			// typed words in which an option unknown at its position was passed through are left out: with mandatory
+			// subcommands such a line can never be completed to a valid one, and how completion follows it is not stated
+			for i, f := range res.Fates {
+				if prefix[i] == "--" {
+					break
+				}
+				if (f == ref.FPositional || f == ref.FRest) && strings.HasPrefix(prefix[i], "-") {
+					c.Skip()
+				}
+			}
+			c.Hit("ignore-unknown")
+		}
+		key := fmt.Sprint(layout, subOpt, defOpts, optVariant)
 		recordStates(c, key, res, nil)
 		// run the real completer
 		build := func() *decl.Built {
@@ -377,8 +395,8 @@ func init() {
 		ShardDepth: 7,
 		Body:       body,
 		Rule: "declaration with Completer-typed options (short+long, long-only, a multi-byte short name, two different word lists), an optional-argument option, hidden long and hidden short-only options, hidden command, short-only options in lower and upper case, commands sharing a prefix (add, adx), alias, sub-subcommand; " +
-			"positionals of add in 5 layouts (none, [Words], [Words,int], [int,Words], [Words, ...Words2]) x subcommands-optional on the parser yes/no x HelpFlag yes/no (+ PassAfterNonOption on the two layouts whose positionals complete differently: after the first plain word only positional values are asserted) x {struct tags, API build where a group of the parser is added after the commands and after a first completion and parse on the half-built parser}; every valid prefix (the CLM in prefix mode accepts it) of <= 3 units (quick: <= 2 on the HelpFlag variants and on two of the five positional layouts; thorough: <= 4 on the [Words,int] layout without HelpFlag) over 29 units " +
-			"(flags, separate / attached / '=' arguments, pending option, cluster ending in a pending option, optional-argument option, command words and alias, plain words, numbers, terminator) x 35 partial last words; " +
+			"positionals of add in 5 layouts (none, [Words], [Words,int], [int,Words], [Words, ...Words2]) x subcommands-optional on the parser yes/no x HelpFlag yes/no (+ IgnoreUnknown, + PassAfterNonOption on the two layouts whose positionals complete differently: after the first plain word only positional values are asserted) x {struct tags, API build where a group of the parser is added after the commands and after a first completion and parse on the half-built parser}; every valid prefix (the CLM in prefix mode accepts it) of <= 3 units (quick: <= 2 on the HelpFlag variants and on two of the five positional layouts; thorough: <= 4 on the [Words,int] layout without HelpFlag) over 29 units " +
+			"(flags, separate / attached / '=' arguments, pending option, cluster ending in a pending option, optional-argument option, command words and alias, plain words, numbers, terminator) x 36 partial last words; " +
 			"oracle from the CLM context after the prefix: (a) '-' / '--p' => exactly the non-hidden options in scope with that prefix, (b) value position of a Completer-typed option or positional => exactly its words re-attached to the spelling, " +
 			"(c) otherwise the non-hidden subcommands with that prefix, (d) sorted, (e) every offered option/command re-parsed by the real parser at that position is not unknown, (f) the real parser's Active chain on the typed words equals the model's",
 		Assumptions:  []string{"left unasserted: option names after --, the echo of a complete short flag, value positions whose type has no completions, option and command names after the first plain word under PassAfterNonOption"},
